@@ -15,6 +15,7 @@ import (
 	"os"
 	"os/exec"
 	"path/filepath"
+	"regexp"
 	"runtime"
 	"sort"
 	"strconv"
@@ -30,8 +31,9 @@ type propCfg struct {
 	Race            bool   `json:"race"`
 	MemLimitMB      int    `json:"mem_limit_mb"`
 	Fuzz            []struct {
-		Target string `json:"target"`
-		Time   string `json:"time"`
+		Target        string   `json:"target"`
+		Time          string   `json:"time"`
+		ReplayTargets []string `json:"replay_targets"`
 	} `json:"fuzz"`
 }
 
@@ -411,6 +413,40 @@ func run(id, tier, replay string) int {
 		}
 	}
 
+	// native coverage-guided fuzzing (thorough tier only; cannot be pinned to a seed)
+	fuzzStats := map[string]any{}
+	var fuzzExecs uint64
+	if tier == "thorough" && os.Getenv("VERIF_NOFUZZ") == "" {
+		for _, fz := range cfg.Fuzz {
+			execs, crashers, out, ferr := runFuzz(id, fz.Target, fz.Time)
+			fuzzExecs += execs
+			fuzzStats[fz.Target] = map[string]any{"execs": execs, "fuzztime": fz.Time, "crashers": len(crashers)}
+			if ferr != nil && len(crashers) == 0 {
+				inconclusive = append(inconclusive, "native fuzzing of "+fz.Target+" failed without leaving an input: "+tail(out, 12))
+				continue
+			}
+			for ci, data := range crashers {
+				reproduced := false
+				for _, rt := range fz.ReplayTargets {
+					dst := filepath.Join(root, "replays", "new", fmt.Sprintf("%s-fuzz-%s-%s-%d.json", id, fz.Target, rt, ci))
+					os.MkdirAll(filepath.Dir(dst), 0o755)
+					cj, _ := json.MarshalIndent(map[string]any{"property": id, "sub": "mutated_encodings", "message": "input found by go test -fuzz " + fz.Target,
+						"case": map[string]any{"Target": rt, "Seed": 0, "Muts": nil, "Cram": nil, "Raw": fmt.Sprintf("%x", data)}}, "", " ")
+					os.WriteFile(dst, cj, 0o644)
+					if v, o, ran := runReplay(bin, cfg, dst, 3*time.Minute); ran && v {
+						viols = append(viols, violation{Replay: dst, Msg: "found by native fuzzing (" + fz.Target + "): " + tail(o, 12)})
+						reproduced = true
+						break
+					}
+					os.Remove(dst)
+				}
+				if !reproduced {
+					fmt.Printf("note: an input reported by go test -fuzz %s does not reproduce in the isolated replay (oversize or load related); not counted\n", fz.Target)
+				}
+			}
+		}
+	}
+
 	// pinned replays of recorded findings
 	var knownLines []string
 	for _, f := range loadFindings() {
@@ -485,6 +521,10 @@ func run(id, tier, replay string) int {
 		"exhaustive":          exhaustive,
 		"known_findings_reported": len(knownLines),
 	}
+	if len(fuzzStats) > 0 {
+		cov["native_fuzz"] = fuzzStats
+		cov["evaluations"] = evals + fuzzExecs
+	}
 	if len(inconclusive) > 0 {
 		cov["inconclusive"] = inconclusive
 	}
@@ -544,6 +584,43 @@ func run(id, tier, replay string) int {
 		return 2
 	}
 	return 0
+}
+
+var execsRe = regexp.MustCompile(`execs: (\d+)`)
+
+// runFuzz runs one native fuzz target and returns the executions it reports and any new crasher inputs.
+func runFuzz(id, target, dur string) (uint64, [][]byte, string, error) {
+	pkg := "./props/" + strings.ToLower(id)
+	dir := filepath.Join(root, "props", strings.ToLower(id), "testdata", "fuzz", target)
+	os.RemoveAll(dir)
+	cmd := exec.Command("go", "test", "-tags", "verif", "-run", "^$", "-fuzz", "^"+target+"$", "-fuzztime", dur, pkg)
+	cmd.Dir = root
+	cmd.Env = goEnv()
+	out, err := cmd.CombinedOutput()
+	var execs uint64
+	for _, m := range execsRe.FindAllStringSubmatch(string(out), -1) {
+		if n, e := strconv.ParseUint(m[1], 10, 64); e == nil && n > execs {
+			execs = n
+		}
+	}
+	var crashers [][]byte
+	if ents, e := os.ReadDir(dir); e == nil {
+		for _, ent := range ents {
+			b, e := os.ReadFile(filepath.Join(dir, ent.Name()))
+			if e != nil {
+				continue
+			}
+			lines := strings.Split(string(b), "\n")
+			if len(lines) >= 2 && strings.HasPrefix(lines[1], "[]byte(") {
+				q := strings.TrimSuffix(strings.TrimPrefix(lines[1], "[]byte("), ")")
+				if u, e := strconv.Unquote(q); e == nil {
+					crashers = append(crashers, []byte(u))
+				}
+			}
+		}
+	}
+	os.RemoveAll(filepath.Join(root, "props", strings.ToLower(id), "testdata"))
+	return execs, crashers, string(out), err
 }
 
 func wrapSample(sub string, nt bool, s json.RawMessage) json.RawMessage {
